@@ -55,8 +55,9 @@ BufVerdict(c) == IF ValidCh(c.ch) /\ ValidBs(c.size) THEN "ok" ELSE "err"
 \* ---------------------------------------------------------------- Fill on a FrameBuf of capacity cap
 \* c = [ch, cap, n (inter-channel samples delivered), extra (dangling values that do not make a whole
 \*      inter-channel sample), bytes (0 = integers, else bytes per sample), ragged (byte count not a multiple)]
+\* (n * ch + extra values are delivered; the buffer holds cap * ch)
 FillVerdict(c) ==
-  IF c.n > c.cap THEN "err"
+  IF c.n > c.cap \/ (c.n = c.cap /\ c.extra > 0) THEN "err"
   ELSE IF c.bytes > 4 \/ (c.bytes = 0 /\ FALSE) THEN "err"
   ELSE IF c.extra > 0 \/ c.ragged THEN "either"
   ELSE "ok"
